@@ -39,8 +39,8 @@ MANIFEST = dict(
     technique="Lean 4 proof (inductive invariant over an index-protocol state machine) + per-step differential correspondence on API histories",
 )
 
-QUICK_MODELS = [("write", 2, 40), ("empty52", 2, 25), ("libproj", 1, 25), ("t52", 1, 30)]
-THOROUGH_MODELS = [("write", 6, 80), ("empty52", 4, 50), ("libproj", 3, 50), ("filtering", 2, 40), ("pvmt", 2, 40),
+QUICK_MODELS = [("write", 2, 40), ("write+frag", 2, 40), ("empty52", 2, 25), ("libproj", 1, 25), ("t52", 1, 30)]
+THOROUGH_MODELS = [("write", 6, 80), ("write+frag", 5, 80), ("t52+frag", 2, 60), ("empty52", 4, 50), ("libproj", 3, 50), ("filtering", 2, 40), ("pvmt", 2, 40),
                    ("t50", 2, 60), ("t52", 3, 80), ("t60", 2, 60)]
 
 
